@@ -265,6 +265,14 @@ def translation_ties(prop):
                                                            "detail": "no answer from py2lean: " + (r.stdout + r.stderr)[-400:]})
         except Exception as e:   # noqa
             out.append({"name": n, "generated": False, "tie_checks": False, "detail": "py2lean --tie failed: %r" % (e,)})
+        if os.path.realpath(REPO) != "/repo":
+            # a run against another checkout (seeded change, self-test): put the generated file of /repo back at
+            # once, so that the committed lean/ArtapModel/Gen never holds the translation of a scratch tree
+            try:
+                subprocess.run(["python3", tool, "--gen", n], capture_output=True, text=True, timeout=300,
+                               env=dict(os.environ, REPO="/repo"))
+            except Exception:   # noqa
+                pass
     return out
 
 
